@@ -849,7 +849,7 @@ def run(ctx):
             if 'cmds' in j:
                 files, args, cmds = hist_from_json(j)
                 hists.append(('corpus:' + fn, files, args, cmds))
-        nh = 800 if ctx.quick else 12000
+        nh = 600 if ctx.quick else 12000
         for i in range(nh):
             r = rng.fork('h%d' % i)
             style = ['mixed', 'mixed', 'wa', 'full16', 'few'][i % 5]
